@@ -338,9 +338,18 @@ func (engine *Engine) Shutdown(ctx context.Context) (err error) {
 	}()
 
 	if opt.Registry != nil {
-		if err = opt.Registry.Deregister(opt.RegistryInfo); err != nil {
-			hlog.SystemLogger().Errorf("Deregister error=%v", err)
-			return err
+		// like the hooks, the deregistration is given the exit wait time and no more: a
+		// registry centre that answers slowly (or not at all) must not keep the listener open
+		derr := make(chan error, 1)
+		go func() { derr <- opt.Registry.Deregister(opt.RegistryInfo) }()
+		select {
+		case err = <-derr:
+			if err != nil {
+				hlog.SystemLogger().Errorf("Deregister error=%v", err)
+				return err
+			}
+		case <-ctx.Done():
+			hlog.SystemLogger().Errorf("Deregister timeout: error=%v", ctx.Err())
 		}
 	}
 
